@@ -1190,7 +1190,7 @@ func runC16(c *vf.Ctx) {
 	if thorough {
 		c.SetBudget(40 * 60 * 1e9)
 	} else {
-		c.SetBudget(8 * 60 * 1e9)
+		c.SetBudget(12 * 60 * 1e9)
 	}
 	targets := c16Targets()
 	seeds := c16Seeds()
